@@ -1041,18 +1041,150 @@ Proof.
 Qed.
 
 (* ------------------------------------------------------------------ *)
+(* ------------------------------------------------------------------ *)
+(* worker states in checkpoints.  wst w j is the (position, fetcher_ended) state worker w reports right after its j-th answer
+   (counted as the ghost a counts: from a0 w).  InvW: every worker-state entry of the running snapshot bookkeeping
+   (_worker_snapshots) and of the snapshot handed out by state_dict() is the state right after the answer to a task the main
+   process has ALREADY PASSED (handed out, or an end-of-shard notice consumed in order) — never the state after a result that
+   is still buffered or outstanding, however far a fast worker has run ahead. *)
+Variable wk0 : nat -> wk.      (* the worker machines this iterator started with *)
+Definition t0 : task := {| t_idx := 0; t_index := []; t_snap := false |}.
+Definition wstep (w : nat) (k : wk) : wk := snd (worker_fetch c w k t0).
+Definition wsk (w j : nat) : wk := Nat.iter (j - a0 w) (wstep w) (wk0 w).
+Definition wst (w j : nat) : wsave := (wk_pos (wsk w j), wk_ended (wsk w j)).
+Definition same_pe (k1 k2 : wk) : Prop := wk_pos k1 = wk_pos k2 /\ wk_ended k1 = wk_ended k2.
+
+Lemma fetch_pe w k1 k2 t1 t2 : same_pe k1 k2 ->
+  let '(r1, st1, k1') := worker_fetch c w k1 t1 in let '(r2, st2, k2') := worker_fetch c w k2 t2 in
+  same_pe k1' k2' /\ (st1 = None \/ st1 = Some (wk_pos k1', wk_ended k1')).
+Proof.
+  intros [E1 E2]. unfold worker_fetch. rewrite Hkind, E1, E2.
+  destruct (wk_ended k2).
+  - cbn. split; [split; reflexivity|]. destruct (t_snap t1 || true); auto.
+  - destruct (c_bs c =? 0).
+    + destruct (nth_error (shard c w) (wk_pos k2)); cbn; (split; [split; reflexivity|]); destruct (t_snap t1 || _); auto.
+    + destruct ((length (firstn (c_bs c) (skipn (wk_pos k2) (shard c w))) =? 0) ||
+                c_drop c && (length (firstn (c_bs c) (skipn (wk_pos k2) (shard c w))) <? c_bs c));
+        cbn; (split; [split; reflexivity|]); destruct (t_snap t1 || _); auto.
+Qed.
+
+Lemma wsk_S w j : a0 w <= j -> wsk w (S j) = wstep w (wsk w j).
+Proof. intros H. unfold wsk. replace (S j - a0 w) with (S (j - a0 w)) by lia. reflexivity. Qed.
+
+Record InvW (gw rd a : nat -> nat) (s : ms) : Prop := {
+  w_k : forall w, w < W -> same_pe (nth w (m_workers s) wk_fresh) (wsk w (a w));
+  w_i : forall t w r st, info_get (m_info s) t = Some (w, Some (r, st)) -> st = None \/ st = Some (wst w (S (rd t)));
+  w_len : length (m_wsnap s) = W;
+  w_s : forall w, w < W -> exists j, nth w (m_wsnap s) (0, false) = wst w j /\
+                                     (j = a0 w \/ exists t, t < m_rcvd s /\ gw t = w /\ S (rd t) = j);
+  w_snlen : length (sn_workers (m_snapshot s)) = W;
+  w_sn : forall w, w < W -> exists j, nth w (sn_workers (m_snapshot s)) (0, false) = wst w j /\
+                                      (j = a0 w \/ exists t, t < m_rcvd s /\ gw t = w /\ S (rd t) = j) }.
+
+Definition agreeW (s s' : ms) : Prop :=
+  m_workers s' = m_workers s /\ m_wsnap s' = m_wsnap s /\ m_snapshot s' = m_snapshot s /\ m_rcvd s' = m_rcvd s.
+
+Lemma InvW_ext gw rd a s s' : InvW gw rd a s -> agreeW s s' ->
+  (forall t, info_get (m_info s') t = info_get (m_info s) t) -> InvW gw rd a s'.
+Proof.
+  intros H (E1 & E2 & E3 & E4) Hget. constructor; rewrite ?E1, ?E2, ?E3, ?E4.
+  - exact (w_k _ _ _ _ H).
+  - intros t w r st Hi. rewrite Hget in Hi. exact (w_i _ _ _ _ H t w r st Hi).
+  - exact (w_len _ _ _ _ H).
+  - exact (w_s _ _ _ _ H).
+  - exact (w_snlen _ _ _ _ H).
+  - exact (w_sn _ _ _ _ H).
+Qed.
+
+Lemma put_some_invW gw rd a s w' c' x y : InvW gw rd a s -> m_rcvd s <= m_send s -> w' < length (m_workers s) ->
+  info_get (m_info s) (m_send s) = None ->
+  InvW (upd gw (m_send s) x) (upd rd (m_send s) y) a (put_some s w' c').
+Proof.
+  intros H Hkn Hwl Hfresh. constructor; cbn [put_some m_workers m_info m_wsnap m_snapshot m_rcvd].
+  - intros w Hw. destruct (Nat.eq_dec w w') as [->|Hne].
+    + rewrite nth_set_nth_eq by exact Hwl. exact (w_k _ _ _ _ H w' Hw).
+    + rewrite nth_set_nth_neq by (intros E; apply Hne; symmetry; exact E). exact (w_k _ _ _ _ H w Hw).
+  - intros t w r st Hi. rewrite info_get_app in Hi. destruct (info_get (m_info s) t) as [v|] eqn:E.
+    + destruct (Nat.eq_dec t (m_send s)) as [->|Hne]; [congruence|]. rewrite upd_neq by exact Hne. injection Hi as ->. exact (w_i _ _ _ _ H t w r st E).
+    + destruct (m_send s =? t); discriminate.
+  - exact (w_len _ _ _ _ H).
+  - intros w Hw. destruct (w_s _ _ _ _ H w Hw) as (j & Ej & Hj). exists j. split; [exact Ej|].
+    destruct Hj as [Hj|(t & T1 & T2 & T3)]; [left; exact Hj | right; exists t; rewrite !upd_neq by lia; auto].
+  - exact (w_snlen _ _ _ _ H).
+  - intros w Hw. destruct (w_sn _ _ _ _ H w Hw) as (j & Ej & Hj). exists j. split; [exact Ej|].
+    destruct Hj as [Hj|(t & T1 & T2 & T3)]; [left; exact Hj | right; exists t; rewrite !upd_neq by lia; auto].
+Qed.
+
+Lemma put_none_invW gw rd a s c' : InvW gw rd a s -> InvW gw rd a (put_none s c').
+Proof.
+  intros H. constructor; [exact (w_k _ _ _ _ H) | exact (w_i _ _ _ _ H) | exact (w_len _ _ _ _ H) | exact (w_s _ _ _ _ H)
+                         | exact (w_snlen _ _ _ _ H) | exact (w_sn _ _ _ _ H)].
+Qed.
+
+(* the receive pointer passes task k; the worker-state bookkeeping is either left alone or takes the state that task carried *)
+Lemma pass_invW gw rd a s ws : InvW gw rd a s -> wf_info (m_info s) -> gw (m_rcvd s) < W ->
+  (ws = m_wsnap s \/ ws = set_nth (m_wsnap s) (gw (m_rcvd s)) (wst (gw (m_rcvd s)) (S (rd (m_rcvd s))))) ->
+  InvW gw rd a (passed s ws).
+Proof.
+  intros H Hwf Hg Hws. constructor; unfold passed; cbn [upd_core m_workers m_info m_wsnap m_snapshot m_rcvd].
+  - exact (w_k _ _ _ _ H).
+  - intros t w r st Hi. destruct (Nat.eq_dec t (m_rcvd s)) as [->|Hne]; [rewrite info_get_del_eq in Hi by exact Hwf; discriminate|].
+    rewrite info_get_del_neq in Hi by lia. exact (w_i _ _ _ _ H t w r st Hi).
+  - destruct Hws as [->| ->]; [|rewrite set_nth_length]; exact (w_len _ _ _ _ H).
+  - intros w Hw. destruct Hws as [->| ->].
+    + destruct (w_s _ _ _ _ H w Hw) as (j & Ej & Hj). exists j. split; [exact Ej|].
+      destruct Hj as [Hj|(t & T1 & T2 & T3)]; [left; exact Hj | right; exists t; repeat split; auto; lia].
+    + destruct (Nat.eq_dec w (gw (m_rcvd s))) as [->|Hne].
+      * rewrite nth_set_nth_eq by (rewrite (w_len _ _ _ _ H); exact Hg). eexists. split; [reflexivity|]. right. exists (m_rcvd s). repeat split; auto.
+      * rewrite nth_set_nth_neq by (intros E; apply Hne; symmetry; exact E).
+        destruct (w_s _ _ _ _ H w Hw) as (j & Ej & Hj). exists j. split; [exact Ej|].
+        destruct Hj as [Hj|(t & T1 & T2 & T3)]; [left; exact Hj | right; exists t; repeat split; auto; lia].
+  - exact (w_snlen _ _ _ _ H).
+  - intros w Hw. destruct (w_sn _ _ _ _ H w Hw) as (j & Ej & Hj). exists j. split; [exact Ej|].
+    destruct Hj as [Hj|(t & T1 & T2 & T3)]; [left; exact Hj | right; exists t; repeat split; auto; lia].
+Qed.
+
+(* an arrival: the worker moves on by one answer; the state it sent along is its state right after that answer *)
+Lemma arrive_invW gw rd a s w2 tk q' : InvW gw rd a s -> wf_info (m_info s) -> w2 < length (m_workers s) -> w2 < W -> a0 w2 <= a w2 ->
+  rd (t_idx tk) = a w2 ->
+  let '(r, st, k') := worker_fetch c w2 (kpop s w2 q') tk in
+  InvW gw rd (upd a w2 (S (a w2))) (arrived s w2 k' (t_idx tk) r st).
+Proof.
+  intros H Hwf Hwl Hw2 Ha0' Hrd.
+  pose proof (fetch_pe w2 (kpop s w2 q') (wsk w2 (a w2)) tk t0) as FP.
+  assert (same_pe (kpop s w2 q') (wsk w2 (a w2))) as Hpe by exact (w_k _ _ _ _ H w2 Hw2).
+  specialize (FP Hpe). fold (wstep w2 (wsk w2 (a w2))) in FP.
+  destruct (worker_fetch c w2 (kpop s w2 q') tk) as [[r st] k'].
+  destruct (worker_fetch c w2 (wsk w2 (a w2)) t0) as [[r0 st0] k0'] eqn:E0.
+  assert (wstep w2 (wsk w2 (a w2)) = k0') as Est by (unfold wstep; rewrite E0; reflexivity).
+  destruct FP as [Hpe' Hst]. rewrite <- Est, <- wsk_S in Hpe' by exact Ha0'.
+  constructor; cbn [arrived m_workers m_info m_wsnap m_snapshot m_rcvd].
+  - intros w Hw. destruct (Nat.eq_dec w w2) as [->|Hne].
+    + rewrite nth_set_nth_eq by exact Hwl. rewrite upd_eq. exact Hpe'.
+    + rewrite nth_set_nth_neq by (intros E; apply Hne; symmetry; exact E). rewrite upd_neq by exact Hne. exact (w_k _ _ _ _ H w Hw).
+  - intros t w r' st' Hi. rewrite info_get_set in Hi by exact Hwf. destruct (Nat.eqb_spec (t_idx tk) t) as [<-|Hne].
+    + injection Hi as <- <- <-. rewrite Hrd. destruct Hst as [->| ->]; [left; reflexivity|right]. f_equal. unfold wst. destruct Hpe' as [-> ->]. reflexivity.
+    + exact (w_i _ _ _ _ H t w r' st' Hi).
+  - exact (w_len _ _ _ _ H).
+  - exact (w_s _ _ _ _ H).
+  - exact (w_snlen _ _ _ _ H).
+  - exact (w_sn _ _ _ _ H).
+Qed.
+
 Lemma process_data_gen s3 b w st gw rd :
   m_assert (try_put_index c s3) = None -> InvS (S (m_ny (try_put_index c s3))) gw rd (try_put_index c s3) ->
   1 <= m_rcvd (try_put_index c s3) ->
   (c_I c <> 0 -> S (m_ny (try_put_index c s3)) mod c_I c = 0 ->
    exists m, In (m_rcvd (try_put_index c s3) - 1, m) (m_msnaps (try_put_index c s3))) ->
   exists sF, process_data c s3 (RData b) w st = (OBatch b, sF) /\ agree (try_put_index c s3) sF /\
-             m_info sF = m_info (try_put_index c s3) /\ InvS (m_ny sF) gw rd sF /\ m_ny sF = S (m_ny (try_put_index c s3)).
+             m_info sF = m_info (try_put_index c s3) /\ InvS (m_ny sF) gw rd sF /\ m_ny sF = S (m_ny (try_put_index c s3)) /\
+             m_wsnap sF = (match st with Some x => set_nth (m_wsnap (try_put_index c s3)) w x | None => m_wsnap (try_put_index c s3) end) /\
+             (m_snapshot sF = m_snapshot (try_put_index c s3) \/ sn_workers (m_snapshot sF) = m_wsnap sF).
 Proof.
   intros Has HS Hk1 Hb. unfold process_data. set (s2 := try_put_index c s3) in *.
   destruct (Nat.eqb_spec (c_I c) 0) as [EI|NI]; cbn [negb andb].
   - cbn [m_assert]. rewrite Has. eexists. split; [reflexivity|]. split; [unfold agree; cbn; repeat split; first [reflexivity | symmetry; exact Has | exact Has]|].
-    split; [reflexivity|]. cbn [m_ny]. split; [|reflexivity].
+    split; [reflexivity|]. cbn [m_ny]. split; [|split; [reflexivity|split; [reflexivity|left; reflexivity]]].
     constructor; [exact (s_sorted _ _ _ _ HS) | exact (s_lt _ _ _ _ HS) | exact (s_cov _ _ _ _ HS) | exact (s_cnt _ _ _ _ HS)].
   - cbn [m_ny]. destruct (Nat.eqb_spec (S (m_ny s2) mod c_I c) 0) as [Eb|Nb].
     + destruct (Hb NI Eb) as [m Hin]. unfold take_snapshot. cbn [m_msnaps m_rcvd].
@@ -1060,14 +1192,55 @@ Proof.
       destruct (pop_msnaps (m_msnaps s2) (m_rcvd s2 - 1) None) as [p rest]. destruct Hpop as (P1 & P2 & _ & P4).
       rewrite (P4 _ _ Hin eq_refl). rewrite Nat.eqb_refl. cbn [m_assert]. rewrite Has.
       eexists. split; [reflexivity|]. split; [unfold agree; cbn; repeat split; first [reflexivity | symmetry; exact Has | exact Has]|].
-      split; [reflexivity|]. cbn [m_ny]. split; [|reflexivity]. constructor; cbn [m_msnaps m_send m_rcvd m_workers m_info].
+      split; [reflexivity|]. cbn [m_ny]. split; [|split; [reflexivity|split; [reflexivity|right; reflexivity]]]. constructor; cbn [m_msnaps m_send m_rcvd m_workers m_info].
       * eapply msorted_mono; [|exact P1]. lia.
       * intros t m' Hin'. apply P2 in Hin'. exact (s_lt _ _ _ _ HS t m' (proj1 Hin')).
       * intros HI t Ht Hd Hm. destruct (s_cov _ _ _ _ HS HI t Ht Hd Hm) as [m' Hin']. exists m'. apply P2. split; [exact Hin' | cbn; lia].
       * exact (s_cnt _ _ _ _ HS).
     + cbn [m_assert]. rewrite Has. eexists. split; [reflexivity|]. split; [unfold agree; cbn; repeat split; first [reflexivity | symmetry; exact Has | exact Has]|].
-      split; [reflexivity|]. cbn [m_ny]. split; [|reflexivity].
+      split; [reflexivity|]. cbn [m_ny]. split; [|split; [reflexivity|split; [reflexivity|left; reflexivity]]].
       constructor; [exact (s_sorted _ _ _ _ HS) | exact (s_lt _ _ _ _ HS) | exact (s_cov _ _ _ _ HS) | exact (s_cnt _ _ _ _ HS)].
+Qed.
+
+(* the batch of task k is handed out: its worker's entry takes the state the batch carried, and a snapshot taken now copies the entries *)
+Lemma final_invW gw rd a s2 sF k w st : InvW gw rd a s2 -> m_rcvd s2 = S k -> gw k = w -> w < W ->
+  (st = None \/ st = Some (wst w (S (rd k)))) ->
+  m_workers sF = m_workers s2 -> m_rcvd sF = m_rcvd s2 -> m_info sF = m_info s2 ->
+  m_wsnap sF = (match st with Some x => set_nth (m_wsnap s2) w x | None => m_wsnap s2 end) ->
+  (m_snapshot sF = m_snapshot s2 \/ sn_workers (m_snapshot sF) = m_wsnap sF) ->
+  InvW gw rd a sF.
+Proof.
+  intros H Hr Hg Hw Hst E1 E2 E3 E4 E5.
+  assert (length (m_wsnap sF) = W /\ forall v, v < W -> exists j, nth v (m_wsnap sF) (0, false) = wst v j /\
+            (j = a0 v \/ exists t, t < m_rcvd sF /\ gw t = v /\ S (rd t) = j)) as [HL HWS].
+  { rewrite E4, E2. destruct Hst as [->| ->].
+    - split; [exact (w_len _ _ _ _ H) | exact (w_s _ _ _ _ H)].
+    - split; [rewrite set_nth_length; exact (w_len _ _ _ _ H)|]. intros v Hv. destruct (Nat.eq_dec v w) as [->|Hne].
+      + rewrite nth_set_nth_eq by (rewrite (w_len _ _ _ _ H); exact Hw). eexists. split; [reflexivity|]. right. exists k. repeat split; auto. lia.
+      + rewrite nth_set_nth_neq by (intros E; apply Hne; symmetry; exact E). exact (w_s _ _ _ _ H v Hv). }
+  constructor.
+  - rewrite E1. exact (w_k _ _ _ _ H).
+  - rewrite E3. exact (w_i _ _ _ _ H).
+  - exact HL.
+  - exact HWS.
+  - destruct E5 as [-> | ->]; [exact (w_snlen _ _ _ _ H) | exact HL].
+  - destruct E5 as [E5 | E5]; rewrite E5; [rewrite E2; exact (w_sn _ _ _ _ H) | exact HWS].
+Qed.
+
+Lemma skip_invW : forall fuel gw rd a R s,
+  InvC gw rd a R s -> InvW gw rd a s -> InvW gw rd a (snd (skip_retired fuel s)).
+Proof.
+  induction fuel as [|f IH]; intros gw rd a R s H HWw; [exact HWw|].
+  cbn [skip_retired]. destruct (Nat.ltb_spec (m_rcvd s) (m_send s)) as [Hlt|Hge]; [|exact HWw].
+  pose proof (c_info _ _ _ _ _ H (m_rcvd s)) as G.
+  destruct (info_get (m_info s) (m_rcvd s)) as [[w r]|] eqn:Ek; [|lia].
+  destruct G as (_ & Gw & Gr).
+  destruct ((match r with Some _ => true | None => false end) || nth w (m_status s) false) eqn:Eb; [exact HWw|].
+  apply orb_false_iff in Eb as [Eb1 Eb2]. destruct r as [x|]; [discriminate|].
+  assert (act s w = false) as Hina by exact Eb2.
+  pose proof (pass_inv gw rd a R s (m_wsnap s) w None H Hlt Ek (or_intror Hina)) as H'.
+  pose proof (pass_invW gw rd a s (m_wsnap s) HWw (c_wf _ _ _ _ _ H) (c_gw _ _ _ _ _ H _ Hlt) (or_introl eq_refl)) as HW'.
+  exact (IH gw rd a R (passed s (m_wsnap s)) H' HW').
 Qed.
 
 (* the skip loop keeps the snapshot bookkeeping: skipped tasks hold no batch *)
@@ -1098,11 +1271,15 @@ Qed.
 Lemma handout gw rd a R s ws b st0 st rest :
   InvC gw rd a R s -> Rest gw rd R s rest -> Act gw rd a s -> InvS (m_ny s) gw rd s -> m_rcvd s < m_send s ->
   info_get (m_info s) (m_rcvd s) = Some (gw (m_rcvd s), Some (RData b, st0)) ->
+  InvW gw rd a s -> ws = m_wsnap s -> (st = None \/ st = Some (wst (gw (m_rcvd s)) (S (rd (m_rcvd s))))) ->
   exists rest' sF gw' rd' R', rest = b :: rest' /\
     process_data c (passed s ws) (RData b) (gw (m_rcvd s)) st = (OBatch b, sF) /\
-    InvC gw' rd' a R' sF /\ Rest gw' rd' R' sF rest' /\ Act gw' rd' a sF /\ InvS (m_ny sF) gw' rd' sF /\ m_ny sF = S (m_ny s).
+    InvC gw' rd' a R' sF /\ Rest gw' rd' R' sF rest' /\ Act gw' rd' a sF /\ InvS (m_ny sF) gw' rd' sF /\ m_ny sF = S (m_ny s) /\
+    InvW gw' rd' a sF.
 Proof.
-  intros H HR HA HS Hkn Hk. set (k := m_rcvd s) in *. set (u := gw k) in *.
+  intros H HR HA HS Hkn Hk HWw Ews Hstv. set (k := m_rcvd s) in *. set (u := gw k) in *.
+  assert (u < W) as Hu by (apply (c_gw _ _ _ _ _ H); exact Hkn).
+  pose proof (pass_invW gw rd a s ws HWw (c_wf _ _ _ _ _ H) Hu (or_introl Ews)) as HW3.
   pose proof (c_info _ _ _ _ _ H k) as G. rewrite Hk in G. destruct G as (_ & _ & G).
   destruct G as [[G _]|(st1 & G & Ga)]; [discriminate|]. injection G as Hans _.
   destruct (ans_cases u (rd k)) as [(b' & E1 & E2 & E3)|(E1 & _)]; [|congruence].
@@ -1122,8 +1299,9 @@ Proof.
   destruct (try_put_iter gw rd a R (passed s ws) rest' H3 HR3 Hroom) as (_ & _ & Hput).
   set (s2 := try_put_index c (passed s ws)) in *.
   assert (exists gw' rd' R', InvC gw' rd' a R' s2 /\ Rest gw' rd' R' s2 rest' /\ Act gw' rd' a s2 /\ InvS (S (m_ny s)) gw' rd' s2 /\
-                             m_ny s2 = m_ny s /\ m_rcvd s2 = S k /\ (forall e, In e (m_msnaps s) -> In e (m_msnaps s2)))
-    as (gw' & rd' & R' & H2 & HR2 & HA2 & HS2 & Eny & Erc & Hsub).
+                             m_ny s2 = m_ny s /\ m_rcvd s2 = S k /\ (forall e, In e (m_msnaps s) -> In e (m_msnaps s2)) /\
+                             InvW gw' rd' a s2 /\ gw' k = u /\ rd' k = rd k)
+    as (gw' & rd' & R' & H2 & HR2 & HA2 & HS2 & Eny & Erc & Hsub & HW2 & Egk & Erk).
   { destruct Hput as [(w' & R' & j & E & Hw' & Hact & Hj & HAdv & H2 & HR2)|(R' & E & Hall & H2 & HR2)].
     - exists (upd gw (m_send s) w'), (upd rd (m_send s) (dsp a s w')), R'.
       change (m_send (passed s ws)) with (m_send s) in *. change (dsp a (passed s ws) w') with (dsp a s w') in *.
@@ -1134,19 +1312,28 @@ Proof.
       rewrite E in H2 |- *. split.
       + apply (act_after_put_some gw rd a R s ws w' R' (m_cyc s2) j); auto.
         rewrite E. cbn [put_some m_cyc]. exact (c_cyc _ _ _ _ _ H2).
-      + split; [exact HS2|]. cbn [put_some m_ny m_rcvd m_msnaps]. split; [reflexivity|]. split; [reflexivity|].
-        intros e He. unfold passed. cbn [upd_core m_msnaps]. destruct (fl_main (upd_core s (S (m_rcvd s)) (info_del (m_info s) (m_rcvd s)) ws)); [apply in_or_app; left|]; exact He.
+      + split; [exact HS2|]. cbn [put_some m_ny m_rcvd m_msnaps]. split; [reflexivity|]. split; [reflexivity|]. split.
+        * intros e He. unfold passed. cbn [upd_core m_msnaps]. destruct (fl_main (upd_core s (S (m_rcvd s)) (info_del (m_info s) (m_rcvd s)) ws)); [apply in_or_app; left|]; exact He.
+        * split; [|rewrite !upd_neq by (fold k; lia); auto].
+          apply (put_some_invW gw rd a (passed s ws) w' (m_cyc s2) w' (dsp a s w') HW3).
+          -- unfold passed. cbn [upd_core m_rcvd m_send]. lia.
+          -- unfold passed. cbn [upd_core m_workers]. rewrite (c_wlen _ _ _ _ _ H). exact Hw'.
+          -- pose proof (c_info _ _ _ _ _ H3 (m_send s)) as G3. change (m_send (passed s ws)) with (m_send s).
+             destruct (info_get (m_info (passed s ws)) (m_send s)) as [[? ?]|]; [|reflexivity]. change (m_send (passed s ws)) with (m_send s) in G3. lia.
     - exists gw, rd, R'. split; [exact H2|]. split; [exact HR2|]. rewrite E. split.
       + unfold Act. change (act (put_none (passed s ws) (m_cyc s2))) with (act s). change (act (passed s ws)) with (act s) in Hall.
         split; [intros _ v Hv Hc; rewrite (Hall v Hv) in Hc; discriminate|]. split; [intros _; exact Hall|].
         exact (proj2 (proj2 HA)).
-      + split; [apply put_none_invS; exact HS3|]. cbn [put_none m_ny m_rcvd m_msnaps]. split; [reflexivity|]. split; [reflexivity|]. intros e He; exact He. }
-  destruct (process_data_gen (passed s ws) b u st gw' rd' (c_assert _ _ _ _ _ H2)) as (sF & EF & Hag & Hinf & HSF & EnyF).
+      + split; [apply put_none_invS; exact HS3|]. cbn [put_none m_ny m_rcvd m_msnaps]. split; [reflexivity|]. split; [reflexivity|].
+        split; [intros e He; exact He|]. split; [apply put_none_invW; exact HW3 | auto]. }
+  destruct (process_data_gen (passed s ws) b u st gw' rd' (c_assert _ _ _ _ _ H2)) as (sF & EF & Hag & Hinf & HSF & EnyF & EwsF & EsnF).
   { fold s2. rewrite Eny. exact HS2. }
   { fold s2. lia. }
   { fold s2. rewrite Eny, Erc. intros HI Hm. destruct (Hbound HI Hm) as [m Hin]. exists m. replace (S k - 1) with k by lia. apply Hsub, Hin. }
-  fold s2 in EF, Hag, Hinf, EnyF. rewrite Eny in EnyF.
-  exists rest', sF, gw', rd', R'. split; [exact Erest|]. split; [exact EF|]. split; [|split; [|split; [|split; [|exact EnyF]]]].
+  fold s2 in EF, Hag, Hinf, EnyF, EwsF, EsnF. rewrite Eny in EnyF.
+  exists rest', sF, gw', rd', R'. split; [exact Erest|]. split; [exact EF|]. split; [|split; [|split; [|split; [|split; [exact EnyF|]]]]].
+  5:{ destruct Hag as (A1 & A2 & A3 & A4 & A5 & A6 & A7).
+      apply (final_invW gw' rd' a s2 sF k u st HW2 Erc Egk Hu); auto. rewrite Erk. exact Hstv. }
   - apply (InvC_ext gw' rd' a R' s2 sF H2 Hag); rewrite ?Hinf; auto. exact (c_wf _ _ _ _ _ H2).
   - exact (Rest_agree _ _ _ _ _ _ HR2 Hag).
   - exact (Act_agree _ _ _ _ _ HA2 Hag).
@@ -1155,14 +1342,16 @@ Qed.
 
 (* a put while the first task of the window stays where it is (after an end-of-shard notice arrived) *)
 Lemma put_nopass gw rd a R s rest :
-  InvC gw rd a R s -> Rest gw rd R s rest -> Act gw rd a s -> InvS (m_ny s) gw rd s -> m_outst s + ndat (m_info s) < W * c_P c ->
+  InvC gw rd a R s -> Rest gw rd R s rest -> Act gw rd a s -> InvS (m_ny s) gw rd s -> InvW gw rd a s -> m_outst s + ndat (m_info s) < W * c_P c ->
   let s2 := try_put_index c s in
-  exists gw' rd' R', InvC gw' rd' a R' s2 /\ Rest gw' rd' R' s2 rest /\ Act gw' rd' a s2 /\ InvS (m_ny s) gw' rd' s2 /\
+  exists gw' rd' R', InvC gw' rd' a R' s2 /\ Rest gw' rd' R' s2 rest /\ Act gw' rd' a s2 /\ InvS (m_ny s) gw' rd' s2 /\ InvW gw' rd' a s2 /\
     m_rcvd s2 = m_rcvd s /\ m_status s2 = m_status s /\
     ((m_send s2 = S (m_send s) /\ m_outst s2 = S (m_outst s) /\ exists w' c', s2 = put_some s w' c') \/
      (m_send s2 = m_send s /\ m_outst s2 = m_outst s /\ exists c', s2 = put_none s c')).
 Proof.
-  intros H HR HA HS Hroom. cbn zeta.
+  intros H HR HA HS HWw Hroom. cbn zeta.
+  assert (info_get (m_info s) (m_send s) = None) as Hfresh.
+  { pose proof (c_info _ _ _ _ _ H (m_send s)) as G. destruct (info_get (m_info s) (m_send s)) as [[? ?]|]; [lia | reflexivity]. }
   destruct (try_put_iter gw rd a R s rest H HR Hroom) as ((E1 & _) & E2 & Hput).
   set (s2 := try_put_index c s) in *.
   destruct Hput as [(w' & R' & j & E & Hw' & Hact & Hj & HAdv & H2 & HR2)|(R' & E & Hall & H2 & HR2)].
@@ -1172,7 +1361,7 @@ Proof.
     { destruct (Nat.eq_dec (m_rcvd s) (m_send s)) as [Eq|Ne]; [|pose proof (c_kn _ _ _ _ _ H); lia].
       destruct HA as (_ & A2 & _). rewrite (A2 Eq w' Hw') in Hact. discriminate. }
     assert (w' < length (m_workers s)) as Hwl by (rewrite (c_wlen _ _ _ _ _ H); exact Hw').
-    split; [|split; [rewrite E; apply (put_some_invS (m_ny s) gw rd a R s w' (m_cyc s2) H HS ltac:(lia) Hroom Hw')|split; [exact E1|split; [exact E2|left; rewrite E; cbn [put_some m_send m_outst]; split; [reflexivity|split; [reflexivity|eauto]]]]]].
+    split; [|split; [rewrite E; apply (put_some_invS (m_ny s) gw rd a R s w' (m_cyc s2) H HS ltac:(lia) Hroom Hw')|split; [rewrite E; apply (put_some_invW gw rd a s w' (m_cyc s2) w' (dsp a s w') HWw (c_kn _ _ _ _ _ H) Hwl Hfresh)|split; [exact E1|split; [exact E2|left; rewrite E; cbn [put_some m_send m_outst]; split; [reflexivity|split; [reflexivity|eauto]]]]]]].
     rewrite E. unfold Act. cbn [put_some m_rcvd m_send].
     split; [|split; [lia | destruct HA as (_ & _ & A3); lia]].
     intros _ v Hv Hc. change (act (put_some s w' (m_cyc s2)) v) with (act s v) in Hc.
@@ -1183,7 +1372,7 @@ Proof.
       - rewrite wq_put_some_neq by exact Hne. lia. }
     lia.
   - exists gw, rd, R'. split; [exact H2|]. split; [exact HR2|].
-    split; [|split; [rewrite E; apply put_none_invS, HS|split; [exact E1|split; [exact E2|right; rewrite E; cbn [put_none m_send m_outst]; split; [reflexivity|split; [reflexivity|eauto]]]]]].
+    split; [|split; [rewrite E; apply put_none_invS, HS|split; [rewrite E; apply put_none_invW, HWw|split; [exact E1|split; [exact E2|right; rewrite E; cbn [put_none m_send m_outst]; split; [reflexivity|split; [reflexivity|eauto]]]]]]].
     rewrite E. unfold Act. change (act (put_none s (m_cyc s2))) with (act s).
     split; [intros _ v Hv Hc; rewrite (Hall v Hv) in Hc; discriminate|]. split; [intros _; exact Hall|]. exact (proj2 (proj2 HA)).
 Qed.
@@ -1248,22 +1437,23 @@ Proof. intros (E1 & E2 & E3 & E4 & _ & _ & _ & E8). unfold psi. rewrite E1, E3, 
 
 (* _next_data for an iterable dataset, under every arrival schedule *)
 Lemma next_data_iter : forall fuel gw rd a R s rest sched,
-  InvC gw rd a R s -> Rest gw rd R s rest -> Act gw rd a s -> InvS (m_ny s) gw rd s -> psi s < fuel ->
+  InvC gw rd a R s -> Rest gw rd R s rest -> Act gw rd a s -> InvS (m_ny s) gw rd s -> InvW gw rd a s -> psi s < fuel ->
   match rest with
   | [] => exists s' sched', next_data fuel c s sched = (OStop, s', sched')
   | b :: rest' => exists s' sched' gw' rd' a' R', next_data fuel c s sched = (OBatch b, s', sched') /\
                     InvC gw' rd' a' R' s' /\ Rest gw' rd' R' s' rest' /\ Act gw' rd' a' s' /\ InvS (m_ny s') gw' rd' s' /\
-                    m_ny s' = S (m_ny s)
+                    m_ny s' = S (m_ny s) /\ InvW gw' rd' a' s'
   end.
 Proof.
-  induction fuel as [|f IH]; intros gw rd a R s rest sched H HR HA HS Hpsi; [lia|].
+  induction fuel as [|f IH]; intros gw rd a R s rest sched H HR HA HS HWw Hpsi; [lia|].
   cbn [next_data].
   pose proof (skip_spec (S (m_send s)) gw rd a R s rest H HR HA ltac:(lia)) as Hskip.
   pose proof (skip_invS (S (m_send s)) gw rd a R s (m_ny s) H HA HS) as HS1.
-  destruct (skip_retired (S (m_send s)) s) as [found s1]. cbn [snd] in HS1.
+  pose proof (skip_invW (S (m_send s)) gw rd a R s H HWw) as HW1.
+  destruct (skip_retired (S (m_send s)) s) as [found s1]. cbn [snd] in HS1, HW1.
   destruct Hskip as (H1 & HR1 & HA1 & Hfr & Hf). pose proof (psi_frame _ _ Hfr) as Hpsi1.
   assert (m_ny s1 = m_ny s) as Eny1 by (destruct Hfr as (_ & _ & _ & _ & E & _); exact E). rewrite <- Eny1 in HS1 |- *.
-  clear H HR HA HS Hfr. destruct found; cbn [negb].
+  clear H HR HA HS HWw Hfr. destruct found; cbn [negb].
   2:{ (* the window is empty: every worker has retired, nothing is left *)
     assert (rest = []) as ->.
     { unfold Rest in HR1. rewrite Hf in HR1. unfold wdat in HR1. rewrite Nat.sub_diag in HR1. cbn [seq flat_map app] in HR1.
@@ -1275,10 +1465,11 @@ Proof.
   destruct r as [[res st]|].
   - (* the result of the first task is already there *)
     destruct Gr as [[Gx _]|(st1 & Gx & Ga)]; [discriminate|]. injection Gx as Gres _.
+    pose proof (w_i _ _ _ _ HW1 _ _ _ _ Ek) as Hstv.
     destruct (ans_cases w (rd (m_rcvd s1))) as [(b & E1 & E2 & E3)|(E1 & E2 & E3)]; rewrite E1 in Gres; subst res.
     + subst w.
-      destruct (handout gw rd a R s1 (m_wsnap s1) b st st rest H1 HR1 HA1 HS1 Hlt Ek) as (rest' & sF & gw' & rd' & R' & -> & EF & HF & HRF & HAF & HSF & EnF).
-      unfold passed in EF. rewrite EF. eexists _, _, gw', rd', a, R'. split; [reflexivity|]. auto 6.
+      destruct (handout gw rd a R s1 (m_wsnap s1) b st st rest H1 HR1 HA1 HS1 Hlt Ek HW1 eq_refl Hstv) as (rest' & sF & gw' & rd' & R' & -> & EF & HF & HRF & HAF & HSF & EnF & HWF).
+      unfold passed in EF. rewrite EF. eexists _, _, gw', rd', a, R'. split; [reflexivity|]. auto 8.
     + subst w. set (ws := match st with Some x => set_nth (m_wsnap s1) (gw (m_rcvd s1)) x | None => m_wsnap s1 end).
       assert (act s1 (gw (m_rcvd s1)) = false) as Hina.
       { assert (gw (m_rcvd s1) < W) as Hw by (apply (c_gw _ _ _ _ _ H1); exact Hlt).
@@ -1291,7 +1482,10 @@ Proof.
       pose proof (pass_invS (m_ny s1) gw rd s1 ws _ HS1 Hlt Ek) as HS2.
       assert (isd gw rd (m_rcvd s1) = false) as Hisd by (unfold isd; apply Nat.ltb_ge; exact E3).
       rewrite Hisd in HS2. specialize (HS2 eq_refl). cbn [b2n] in HS2. rewrite Nat.add_0_r in HS2.
-      apply (IH gw rd a R (passed s1 ws) rest sched H2 HR2 HA2 HS2).
+      assert (InvW gw rd a (passed s1 ws)) as HW2.
+      { apply (pass_invW gw rd a s1 ws HW1 (c_wf _ _ _ _ _ H1) (c_gw _ _ _ _ _ H1 _ Hlt)).
+        unfold ws. destruct Hstv as [->| ->]; [left | right]; reflexivity. }
+      apply (IH gw rd a R (passed s1 ws) rest sched H2 HR2 HA2 HS2 HW2).
       unfold psi, passed in *. cbn [upd_core m_send m_rcvd m_outst m_status]. lia.
   - (* the first task is still outstanding: wait for an arrival *)
     destruct Hr as [Hr|Hact]; [congruence|].
@@ -1310,6 +1504,8 @@ Proof.
     assert (wk_q k2 = q') as Hq2k.
     { pose proof (fetch_dead c Hkind w2 (kpop s1 w2 q') tk) as FD. rewrite Efetch in FD. exact (proj2 FD). }
     pose proof (arrive_invS (m_ny s1) gw rd a R s1 w2 tk q' k2 r2 st2 H1 HS1 Hw2 Eq Hq2k Hgi Hri Hr2 Hei) as HSv. fold idx in HSv.
+    pose proof (arrive_invW gw rd a s1 w2 tk q' HW1 (c_wf _ _ _ _ _ H1) ltac:(rewrite (c_wlen _ _ _ _ _ H1); exact Hw2) Hw2 (c_a0 _ _ _ _ _ H1 w2 Hw2) Hri) as HWv.
+    rewrite Efetch in HWv. fold idx a' in HWv.
     destruct (ans_cases w2 (a w2)) as [(b2 & E1 & E2 & E3)|(E1 & E2 & E3)]; rewrite E1 in Hr2; subst r2; cbn [m_rcvd].
     + (* a batch arrives *)
       set (sv := arrived s1 w2 k2 idx (RData b2) st2) in *.
@@ -1321,15 +1517,16 @@ Proof.
         assert (info_get (m_info sv) (m_rcvd sv) = Some (gw (m_rcvd sv), Some (RData b2, st2))) as Hkv.
         { unfold sv, arrived. cbn [m_info m_rcvd]. rewrite <- Eidx. rewrite info_get_set by exact (c_wf _ _ _ _ _ H1).
           rewrite Nat.eqb_refl, Hgi. reflexivity. }
-        destruct (handout gw rd a' R sv (m_wsnap s1) b2 st2 st2 rest Hv HRv HAv HSv Hlt Hkv)
-          as (rest' & sF & gw' & rd' & R' & -> & EF & HF & HRF & HAF & HSF & EnF).
+        pose proof (w_i _ _ _ _ HWv _ _ _ _ Hkv) as Hst2.
+        destruct (handout gw rd a' R sv (m_wsnap s1) b2 st2 st2 rest Hv HRv HAv HSv Hlt Hkv HWv eq_refl Hst2)
+          as (rest' & sF & gw' & rd' & R' & -> & EF & HF & HRF & HAF & HSF & EnF & HWF).
         match goal with |- context [process_data c ?S _ _ _] => assert (S = passed sv (m_wsnap s1)) as Es3 end.
         { unfold passed, sv, arrived. cbn [m_rcvd m_info upd_core m_send m_outst m_status m_cyc m_ny m_siy m_samp m_msnaps m_last m_wsnap
             m_snapshot m_finished m_workers m_assert isstop]. rewrite <- Eidx. rewrite info_del_set by exact (c_wf _ _ _ _ _ H1). reflexivity. }
         rewrite Es3. change (m_rcvd sv) with (m_rcvd s1) in EF. rewrite <- Eidx, Hgi in EF. rewrite EF.
-        eexists _, _, gw', rd', a', R'. split; [reflexivity|]. auto 6.
+        eexists _, _, gw', rd', a', R'. split; [reflexivity|]. auto 8.
       * (* out of order: buffered, keep waiting *)
-        apply (IH gw rd a' R sv rest sched' Hv HRv HAv HSv).
+        apply (IH gw rd a' R sv rest sched' Hv HRv HAv HSv HWv).
         unfold psi, sv, arrived in *. cbn [m_send m_rcvd m_outst m_status isstop]. lia.
     + (* an end-of-shard notice arrives: the worker retires, one more task is put *)
       set (sv := arrived s1 w2 k2 idx RStop st2) in *.
@@ -1365,6 +1562,10 @@ Proof.
         pose proof (pass_invS (m_ny s1) gw rd sv ws _ HSv Hlt Hkv) as HSp.
         assert (isd gw rd (m_rcvd sv) = false) as Hisdv by (unfold isd; change (m_rcvd sv) with (m_rcvd s1); rewrite <- Eidx, Hgi, Hri; apply Nat.ltb_ge; exact E3).
         rewrite Hisdv in HSp. specialize (HSp eq_refl). cbn [b2n] in HSp. rewrite Nat.add_0_r in HSp.
+        assert (InvW gw rd a' (passed sv ws)) as HWp.
+        { apply (pass_invW gw rd a' sv ws HWv (c_wf _ _ _ _ _ Hv) (c_gw _ _ _ _ _ Hv _ Hlt)).
+          pose proof (w_i _ _ _ _ HWv _ _ _ _ Hkv) as Hst2. change (m_rcvd sv) with (m_rcvd s1) in Hst2 |- *. rewrite <- Eidx in Hst2 |- *. rewrite Hgi.
+          unfold ws. change (m_wsnap sv) with (m_wsnap s1). destruct Hst2 as [->| ->]; [left | right]; reflexivity. }
         set (sp := passed sv ws) in *.
         assert (m_outst sp + ndat (m_info sp) < W * c_P c) as Hroomp.
         { pose proof (ndat_del _ _ _ Hkv) as Hd. unfold isdat in Hd. cbn [snd b2n] in Hd. unfold sp, passed. cbn [upd_core m_outst m_info].
@@ -1372,8 +1573,8 @@ Proof.
         assert (m_outst sp < W * c_P c) as Houtp by lia.
         pose proof (try_put_eq sp Houtp (c_assert _ _ _ _ _ Hp)) as Eputp.
         change (m_status sp) with (m_status sv) in Eputp. change (m_cyc sp) with (m_cyc sv) in Eputp.
-        destruct (put_nopass gw rd a' R sp rest Hp HRp HAp HSp Hroomp) as (gw' & rd' & R' & H2 & HR2 & HA2 & HS2 & Er2 & Es2 & Hcase).
-        rewrite Eput'. rewrite Eputp in H2, HR2, HA2, HS2, Er2, Es2, Hcase.
+        destruct (put_nopass gw rd a' R sp rest Hp HRp HAp HSp HWp Hroomp) as (gw' & rd' & R' & H2 & HR2 & HA2 & HS2 & HW2 & Er2 & Es2 & Hcase).
+        rewrite Eput'. rewrite Eputp in H2, HR2, HA2, HS2, HW2, Er2, Es2, Hcase.
         assert (info_del (info_set (m_info s1) idx (w2, Some (RStop, st2))) idx = info_del (m_info s1) idx) as Hdl
           by (apply info_del_set; exact (c_wf _ _ _ _ _ H1)).
         destruct (find_worker W W (m_status sv) (m_cyc sv)) as [[w'|] c'].
@@ -1387,7 +1588,8 @@ Proof.
            { apply (InvC_ext gw' rd' a' R' (put_some sp w' c') sA H2 Hag); rewrite ?Hinf; auto. exact (c_wf _ _ _ _ _ H2). }
            assert (agreeS (put_some sp w' c') sA) as HagS by (split; [exact Hag | split; reflexivity]).
            assert (InvS (m_ny sA) gw' rd' sA) as HSA by (apply (InvS_ext (m_ny s1) gw' rd' (put_some sp w' c') sA HS2 HagS); rewrite Hinf; reflexivity).
-           apply (IH gw' rd' a' R' sA rest sched' HA' (Rest_agree _ _ _ _ _ _ HR2 Hag) (Act_agree _ _ _ _ _ HA2 Hag) HSA).
+           assert (InvW gw' rd' a' sA) as HWA by (apply (InvW_ext gw' rd' a' (put_some sp w' c') sA HW2); [unfold agreeW; repeat split; reflexivity | intros; rewrite Hinf; reflexivity]).
+           apply (IH gw' rd' a' R' sA rest sched' HA' (Rest_agree _ _ _ _ _ _ HR2 Hag) (Act_agree _ _ _ _ _ HA2 Hag) HSA HWA).
            unfold psi in *. unfold sA. cbn [upd_core put_some m_send m_rcvd m_outst m_status]. unfold s'. cbn [m_send m_outst m_status m_rcvd].
            unfold sv, arrived in Hnact. cbn [m_status isstop] in Hnact. lia.
         -- cbn [put_none m_rcvd]. change (m_rcvd s') with (m_rcvd s1). replace (negb (idx =? m_rcvd s1)) with false by (symmetry; apply negb_false_iff, Nat.eqb_eq; exact Eidx).
@@ -1399,13 +1601,14 @@ Proof.
            { apply (InvC_ext gw' rd' a' R' (put_none sp c') sA H2 Hag); rewrite ?Hinf; auto. exact (c_wf _ _ _ _ _ H2). }
            assert (agreeS (put_none sp c') sA) as HagS by (split; [exact Hag | split; reflexivity]).
            assert (InvS (m_ny sA) gw' rd' sA) as HSA by (apply (InvS_ext (m_ny s1) gw' rd' (put_none sp c') sA HS2 HagS); rewrite Hinf; reflexivity).
-           apply (IH gw' rd' a' R' sA rest sched' HA' (Rest_agree _ _ _ _ _ _ HR2 Hag) (Act_agree _ _ _ _ _ HA2 Hag) HSA).
+           assert (InvW gw' rd' a' sA) as HWA by (apply (InvW_ext gw' rd' a' (put_none sp c') sA HW2); [unfold agreeW; repeat split; reflexivity | intros; rewrite Hinf; reflexivity]).
+           apply (IH gw' rd' a' R' sA rest sched' HA' (Rest_agree _ _ _ _ _ _ HR2 Hag) (Act_agree _ _ _ _ _ HA2 Hag) HSA HWA).
            unfold psi in *. unfold sA. cbn [upd_core put_none m_send m_rcvd m_outst m_status]. unfold s'. cbn [m_send m_outst m_status m_rcvd].
            unfold sv, arrived in Hnact. cbn [m_status isstop] in Hnact. lia.
       * (* out of order: the notice is buffered *)
         pose proof (try_put_eq sv Houtv (c_assert _ _ _ _ _ Hv)) as Eputv.
-        destruct (put_nopass gw rd a' R sv rest Hv HRv HAv HSv Hroomv) as (gw' & rd' & R' & H2 & HR2 & HA2 & HS2 & Er2 & Es2 & Hcase).
-        rewrite Eput'. rewrite Eputv in H2, HR2, HA2, HS2, Er2, Es2, Hcase.
+        destruct (put_nopass gw rd a' R sv rest Hv HRv HAv HSv HWv Hroomv) as (gw' & rd' & R' & H2 & HR2 & HA2 & HS2 & HW2 & Er2 & Es2 & Hcase).
+        rewrite Eput'. rewrite Eputv in H2, HR2, HA2, HS2, HW2, Er2, Es2, Hcase.
         destruct (find_worker W W (m_status sv) (m_cyc sv)) as [[w'|] c'].
         -- cbn [put_some m_rcvd]. change (m_rcvd s') with (m_rcvd s1). replace (negb (idx =? m_rcvd s1)) with true by (symmetry; apply negb_true_iff, Nat.eqb_neq; exact Nidx).
            match goal with |- context [next_data f c ?S sched'] => set (sA := S) end.
@@ -1416,7 +1619,8 @@ Proof.
            { apply (InvC_ext gw' rd' a' R' (put_some sv w' c') sA H2 Hag); [exact X1 | exact X2 | exact X3]. }
            assert (agreeS (put_some sv w' c') sA) as HagS by (split; [exact Hag | split; reflexivity]).
            assert (InvS (m_ny sA) gw' rd' sA) as HSA by (apply (InvS_ext (m_ny s1) gw' rd' (put_some sv w' c') sA HS2 HagS); exact X3).
-           apply (IH gw' rd' a' R' sA rest sched' HA' (Rest_agree _ _ _ _ _ _ HR2 Hag) (Act_agree _ _ _ _ _ HA2 Hag) HSA).
+           assert (InvW gw' rd' a' sA) as HWA by (apply (InvW_ext gw' rd' a' (put_some sv w' c') sA HW2); [unfold agreeW; repeat split; reflexivity | exact X2]).
+           apply (IH gw' rd' a' R' sA rest sched' HA' (Rest_agree _ _ _ _ _ _ HR2 Hag) (Act_agree _ _ _ _ _ HA2 Hag) HSA HWA).
            unfold psi in *. unfold sA. cbn [upd_core put_some m_send m_rcvd m_outst m_status]. unfold s'. cbn [m_send m_outst m_status].
            unfold sv, arrived in Hnact. cbn [m_status isstop] in Hnact. lia.
         -- cbn [put_none m_rcvd]. change (m_rcvd s') with (m_rcvd s1). replace (negb (idx =? m_rcvd s1)) with true by (symmetry; apply negb_true_iff, Nat.eqb_neq; exact Nidx).
@@ -1426,37 +1630,38 @@ Proof.
            { apply (InvC_ext gw' rd' a' R' (put_none sv c') sA H2 Hag); [exact (c_wf _ _ _ _ _ H2) | reflexivity | reflexivity]. }
            assert (agreeS (put_none sv c') sA) as HagS by (split; [exact Hag | split; reflexivity]).
            assert (InvS (m_ny sA) gw' rd' sA) as HSA by (apply (InvS_ext (m_ny s1) gw' rd' (put_none sv c') sA HS2 HagS); reflexivity).
-           apply (IH gw' rd' a' R' sA rest sched' HA' (Rest_agree _ _ _ _ _ _ HR2 Hag) (Act_agree _ _ _ _ _ HA2 Hag) HSA).
+           assert (InvW gw' rd' a' sA) as HWA by (apply (InvW_ext gw' rd' a' (put_none sv c') sA HW2); [unfold agreeW; repeat split; reflexivity | reflexivity]).
+           apply (IH gw' rd' a' R' sA rest sched' HA' (Rest_agree _ _ _ _ _ _ HR2 Hag) (Act_agree _ _ _ _ _ HA2 Hag) HSA HWA).
            unfold psi in *. unfold sA. cbn [upd_core put_none m_send m_rcvd m_outst m_status]. unfold s'. cbn [m_send m_outst m_status].
            unfold sv, arrived in Hnact. cbn [m_status isstop] in Hnact. lia.
 Qed.
 
 (* __next__ *)
 Lemma sdl_next_iter gw rd a R s rest sched :
-  InvC gw rd a R s -> Rest gw rd R s rest -> Act gw rd a s -> InvS (m_ny s) gw rd s ->
+  InvC gw rd a R s -> Rest gw rd R s rest -> Act gw rd a s -> InvS (m_ny s) gw rd s -> InvW gw rd a s ->
   match rest with
   | [] => exists s' sched', sdl_next c s sched = (OStop, s', sched')
   | b :: rest' => exists s' sched' gw' rd' a' R', sdl_next c s sched = (OBatch b, s', sched') /\
                     InvC gw' rd' a' R' s' /\ Rest gw' rd' R' s' rest' /\ Act gw' rd' a' s' /\ InvS (m_ny s') gw' rd' s' /\
-                    m_ny s' = S (m_ny s)
+                    m_ny s' = S (m_ny s) /\ InvW gw' rd' a' s'
   end.
 Proof.
-  intros H HR HA HS. unfold sdl_next. apply (next_data_iter (FUEL c s) gw rd a R s rest sched H HR HA HS).
+  intros H HR HA HS HWw. unfold sdl_next. apply (next_data_iter (FUEL c s) gw rd a R s rest sched H HR HA HS HWw).
   unfold psi, FUEL. destruct (c_out _ _ _ _ _ H) as [O1 _]. rewrite O1. fold (qsum (m_workers s)).
   pose proof (nact_le (m_status s)) as Hn. rewrite (c_slen _ _ _ _ _ H) in Hn. destruct HA as (_ & _ & A3).
   assert (W <= W * c_P c) by nia. lia.
 Qed.
 
 Lemma outcomes_iter : forall rest gw rd a R s sched,
-  InvC gw rd a R s -> Rest gw rd R s rest -> Act gw rd a s -> InvS (m_ny s) gw rd s ->
+  InvC gw rd a R s -> Rest gw rd R s rest -> Act gw rd a s -> InvS (m_ny s) gw rd s -> InvW gw rd a s ->
   outcomes c (S (length rest)) s sched = map OBatch rest ++ [OStop].
 Proof.
-  induction rest as [|b rest IH]; intros gw rd a R s sched H HR HA HS.
-  - destruct (sdl_next_iter gw rd a R s [] sched H HR HA HS) as (s' & sched' & E). cbn [outcomes length]. rewrite E. reflexivity.
-  - destruct (sdl_next_iter gw rd a R s (b :: rest) sched H HR HA HS) as (s' & sched' & gw' & rd' & a' & R' & E & H' & HR' & HA' & HS' & _).
+  induction rest as [|b rest IH]; intros gw rd a R s sched H HR HA HS HWw.
+  - destruct (sdl_next_iter gw rd a R s [] sched H HR HA HS HWw) as (s' & sched' & E). cbn [outcomes length]. rewrite E. reflexivity.
+  - destruct (sdl_next_iter gw rd a R s (b :: rest) sched H HR HA HS HWw) as (s' & sched' & gw' & rd' & a' & R' & E & H' & HR' & HA' & HS' & _ & HW').
     cbn [length]. change (outcomes c (S (S (length rest))) s sched)
       with (let '(o, s', sched') := sdl_next c s sched in match o with OStop => [OStop] | _ => o :: outcomes c (S (length rest)) s' sched' end).
-    rewrite E. cbn [map app]. f_equal. exact (IH gw' rd' a' R' s' sched' H' HR' HA' HS').
+    rewrite E. cbn [map app]. f_equal. exact (IH gw' rd' a' R' s' sched' H' HR' HA' HS' HW').
 Qed.
 
 (* ------------------------------------------------------------------ *)
@@ -1503,6 +1708,25 @@ Qed.
 Lemma a0_cnt w : a0 w = cnt 0 cyc0 w.
 Proof. unfold a0, cnt, b2n. destruct (w <? cyc0); reflexivity. Qed.
 
+Definition entries_ok (workers : list wk) (wsnap : list wsave) (snap : snapshot) : Prop :=
+  (forall w, w < W -> same_pe (nth w workers wk_fresh) (wk0 w)) /\ length wsnap = W /\
+  (forall w, w < W -> nth w wsnap (0, false) = (wk_pos (wk0 w), wk_ended (wk0 w))) /\ sn_workers snap = wsnap.
+
+Lemma wst_a0 w : wst w (a0 w) = (wk_pos (wk0 w), wk_ended (wk0 w)).
+Proof. unfold wst, wsk. rewrite Nat.sub_diag. reflexivity. Qed.
+
+Lemma blank_invW workers ny0 siy0 samp0 last0 wsnap snap : entries_ok workers wsnap snap ->
+  InvW g0 g0 a0 (init0 workers ny0 siy0 samp0 last0 wsnap snap).
+Proof.
+  intros (E1 & E2 & E3 & E4). constructor; unfold init0; cbn [m_workers m_info m_wsnap m_snapshot m_rcvd].
+  - intros w Hw. unfold wsk. rewrite Nat.sub_diag. exact (E1 w Hw).
+  - intros t w r st Hi. discriminate.
+  - exact E2.
+  - intros w Hw. exists (a0 w). rewrite wst_a0. split; [exact (E3 w Hw) | left; reflexivity].
+  - rewrite E4. exact E2.
+  - intros w Hw. exists (a0 w). rewrite wst_a0, E4. split; [exact (E3 w Hw) | left; reflexivity].
+Qed.
+
 Lemma blank_inv workers ny0 siy0 samp0 last0 wsnap snap : workers_ok workers ->
   let s0 := init0 workers ny0 siy0 samp0 last0 wsnap snap in
   InvC g0 g0 a0 0 s0 /\ Rest g0 g0 0 s0 (refsuf W B 0 cyc0) /\ InvS ny0 g0 g0 s0.
@@ -1540,13 +1764,13 @@ Qed.
 Lemma init_puts : forall j i gw rd R s y,
   i + j <= W * c_P c -> InvC gw rd a0 R s -> Rest gw rd R s (refsuf W B 0 cyc0) ->
   m_send s = i -> m_rcvd s = 0 -> m_outst s = i -> ndat (m_info s) = 0 -> m_status s = repeat true W -> R * W + m_cyc s = i + cyc0 ->
-  (1 <= i -> gw 0 = cyc0 /\ rd 0 = 0) -> InvS y gw rd s -> m_ny s = y ->
+  (1 <= i -> gw 0 = cyc0 /\ rd 0 = 0) -> InvS y gw rd s -> m_ny s = y -> InvW gw rd a0 s ->
   exists gw' rd' R', let s' := iter_n (try_put_index c) j s in
-    InvC gw' rd' a0 R' s' /\ Rest gw' rd' R' s' (refsuf W B 0 cyc0) /\ InvS y gw' rd' s' /\ m_ny s' = y /\ m_send s' = i + j /\ m_rcvd s' = 0 /\
+    InvC gw' rd' a0 R' s' /\ Rest gw' rd' R' s' (refsuf W B 0 cyc0) /\ InvS y gw' rd' s' /\ InvW gw' rd' a0 s' /\ m_ny s' = y /\ m_send s' = i + j /\ m_rcvd s' = 0 /\
     m_status s' = repeat true W /\ R' * W + m_cyc s' = i + j + cyc0 /\ (1 <= i + j -> gw' 0 = cyc0 /\ rd' 0 = 0).
 Proof.
-  induction j as [|j IH]; intros i gw rd R s y Hij H HR Es Er Eo En Est ERc H0 HS Eny.
-  - exists gw, rd, R. cbn [iter_n]. rewrite Nat.add_0_r. auto 12.
+  induction j as [|j IH]; intros i gw rd R s y Hij H HR Es Er Eo En Est ERc H0 HS Eny HWw.
+  - exists gw, rd, R. cbn [iter_n]. rewrite Nat.add_0_r. auto 14.
   - cbn [iter_n].
     destruct (try_put_iter gw rd a0 R s (refsuf W B 0 cyc0) H HR ltac:(lia)) as ((E1 & _) & E2 & Hput).
     set (s2 := try_put_index c s) in *.
@@ -1565,6 +1789,9 @@ Proof.
     { rewrite E. cbn [put_some m_send m_rcvd m_outst m_status m_info m_ny]. rewrite ndat_app. cbn. repeat split; auto; lia. }
     assert (InvS y (upd gw (m_send s) w') (upd rd (m_send s) (dsp a0 s w')) s2) as HS2.
     { rewrite E. apply (put_some_invS y gw rd a0 R s w' (m_cyc s2) H HS ltac:(lia) ltac:(lia) Hw'). }
+    assert (InvW (upd gw (m_send s) w') (upd rd (m_send s) (dsp a0 s w')) a0 s2) as HW2.
+    { rewrite E. apply (put_some_invW gw rd a0 s w' (m_cyc s2) w' (dsp a0 s w') HWw (c_kn _ _ _ _ _ H) Hwl).
+      pose proof (c_info _ _ _ _ _ H (m_send s)) as G. destruct (info_get (m_info s) (m_send s)) as [[? ?]|]; [lia | reflexivity]. }
     replace (i + S j) with (S i + j) by lia.
     apply (IH (S i) (upd gw (m_send s) w') (upd rd (m_send s) (dsp a0 s w')) R' s2 y); auto; try lia.
     intros _. rewrite Es. destruct (Nat.eq_dec i 0) as [->|Hi].
@@ -1576,16 +1803,17 @@ Proof.
 Qed.
 
 (* every iterator of this kind, once its first tasks are put, is in a good state with the whole walk from cyc0 ahead *)
-Lemma start_iter workers ny0 siy0 samp0 last0 wsnap snap : workers_ok workers ->
+Lemma start_iter workers ny0 siy0 samp0 last0 wsnap snap : workers_ok workers -> entries_ok workers wsnap snap ->
   let s := iter_n (try_put_index c) (c_P c * W) (init0 workers ny0 siy0 samp0 last0 wsnap snap) in
-  exists gw rd R, InvC gw rd a0 R s /\ Rest gw rd R s (refsuf W B 0 cyc0) /\ Act gw rd a0 s /\ InvS (m_ny s) gw rd s /\ m_ny s = ny0.
+  exists gw rd R, InvC gw rd a0 R s /\ Rest gw rd R s (refsuf W B 0 cyc0) /\ Act gw rd a0 s /\ InvS (m_ny s) gw rd s /\ m_ny s = ny0 /\
+                  InvW gw rd a0 s.
 Proof.
-  intros Hok. cbn zeta. destruct (blank_inv workers ny0 siy0 samp0 last0 wsnap snap Hok) as (H0 & HR0 & HS0).
+  intros Hok Hent. cbn zeta. pose proof (blank_invW workers ny0 siy0 samp0 last0 wsnap snap Hent) as HW0. destruct (blank_inv workers ny0 siy0 samp0 last0 wsnap snap Hok) as (H0 & HR0 & HS0).
   set (s0 := init0 workers ny0 siy0 samp0 last0 wsnap snap) in *.
-  destruct (init_puts (c_P c * W) 0 g0 g0 0 s0 ny0 ltac:(lia) H0 HR0 eq_refl eq_refl eq_refl eq_refl eq_refl ltac:(cbn; lia) ltac:(lia) HS0 eq_refl)
-    as (gw & rd & R & H & HR & HS & Eny & Es & Er & Est & ERc & Hz).
+  destruct (init_puts (c_P c * W) 0 g0 g0 0 s0 ny0 ltac:(lia) H0 HR0 eq_refl eq_refl eq_refl eq_refl eq_refl ltac:(cbn; lia) ltac:(lia) HS0 eq_refl HW0)
+    as (gw & rd & R & H & HR & HS & HWw & Eny & Es & Er & Est & ERc & Hz).
   cbn zeta in *. set (s := iter_n (try_put_index c) (c_P c * W) s0) in *.
-  exists gw, rd, R. split; [exact H|]. split; [exact HR|]. split; [|split; [rewrite Eny; exact HS | exact Eny]].
+  exists gw, rd, R. split; [exact H|]. split; [exact HR|]. split; [|split; [rewrite Eny; exact HS | split; [exact Eny | exact HWw]]].
   assert (0 < c_P c * W) as Hpos by nia. destruct (Hz ltac:(lia)) as [Hg Hr].
   pose proof (c_cyc _ _ _ _ _ H) as Hcyc.
   unfold Act. rewrite Er, Es. split; [|split; [lia | nia]].
@@ -1599,15 +1827,16 @@ Qed.
 
 (* k further batches (the replay loop of __init__; any k consecutive __next__ calls) *)
 Lemma replay_iter : forall k gw rd a R s rest sched, k <= length rest ->
-  InvC gw rd a R s -> Rest gw rd R s rest -> Act gw rd a s -> InvS (m_ny s) gw rd s ->
+  InvC gw rd a R s -> Rest gw rd R s rest -> Act gw rd a s -> InvS (m_ny s) gw rd s -> InvW gw rd a s ->
   exists s' sched' gw' rd' a' R', replay c k s sched = (s', sched') /\
-    InvC gw' rd' a' R' s' /\ Rest gw' rd' R' s' (skipn k rest) /\ Act gw' rd' a' s' /\ InvS (m_ny s') gw' rd' s' /\ m_ny s' = m_ny s + k.
+    InvC gw' rd' a' R' s' /\ Rest gw' rd' R' s' (skipn k rest) /\ Act gw' rd' a' s' /\ InvS (m_ny s') gw' rd' s' /\ m_ny s' = m_ny s + k /\
+    InvW gw' rd' a' s'.
 Proof.
-  induction k as [|k IH]; intros gw rd a R s rest sched Hk H HR HA HS.
-  - exists s, sched, gw, rd, a, R. cbn [replay skipn]. rewrite Nat.add_0_r. auto 10.
+  induction k as [|k IH]; intros gw rd a R s rest sched Hk H HR HA HS HWw.
+  - exists s, sched, gw, rd, a, R. cbn [replay skipn]. rewrite Nat.add_0_r. auto 12.
   - destruct rest as [|b rest]; [cbn in Hk; lia|].
-    destruct (sdl_next_iter gw rd a R s (b :: rest) sched H HR HA HS) as (s1 & sched1 & gw1 & rd1 & a1 & R1 & E & H1 & HR1 & HA1 & HS1 & Eny).
-    destruct (IH gw1 rd1 a1 R1 s1 rest sched1 ltac:(cbn in Hk; lia) H1 HR1 HA1 HS1) as (s' & sched' & gw' & rd' & a' & R' & E' & X).
+    destruct (sdl_next_iter gw rd a R s (b :: rest) sched H HR HA HS HWw) as (s1 & sched1 & gw1 & rd1 & a1 & R1 & E & H1 & HR1 & HA1 & HS1 & Eny & HW1).
+    destruct (IH gw1 rd1 a1 R1 s1 rest sched1 ltac:(cbn in Hk; lia) H1 HR1 HA1 HS1 HW1) as (s' & sched' & gw' & rd' & a' & R' & E' & X).
     exists s', sched', gw', rd', a', R'. cbn [replay]. rewrite E. split; [exact E'|]. cbn [skipn]. rewrite Eny in X.
     replace (m_ny s + S k) with (S (m_ny s) + k) by lia. exact X.
 Qed.
@@ -1631,16 +1860,52 @@ Proof.
   apply fut_fresh, Hkind.
 Qed.
 
+Definition wk_fresh0 : nat -> wk := fun _ => wk_fresh.
+
+Lemma fresh_entries_ok snap : sn_workers snap = repeat (0, false) (c_W c) ->
+  entries_ok c wk_fresh0 (repeat wk_fresh (c_W c)) (repeat (0, false) (c_W c)) snap.
+Proof.
+  intros Hs. split; [|split; [|split]].
+  - intros w Hw. rewrite nth_repeat_fresh'. split; reflexivity.
+  - apply repeat_length.
+  - intros w _. generalize (c_W c). intros n. revert w. induction n as [|n IH]; intros [|w]; cbn; auto. apply IH.
+  - exact Hs.
+Qed.
+
+Definition snap_fresh : snapshot :=
+  {| sn_step := 0; sn_last := c_W c - 1; sn_main := (0, 0); sn_workers := repeat (0, false) (c_W c) |}.
+
+Lemma fresh_start : exists gw rd R,
+  InvC c (Bw c) 0 gw rd (a0 0) R (sdl_fresh c) /\ Rest c (Bw c) gw rd R (sdl_fresh c) (reference c) /\ Act c gw rd (a0 0) (sdl_fresh c) /\
+  InvS c (Bw c) (m_ny (sdl_fresh c)) gw rd (sdl_fresh c) /\ m_ny (sdl_fresh c) = 0 /\ InvW c 0 wk_fresh0 gw rd (a0 0) (sdl_fresh c).
+Proof.
+  destruct (start_iter c Hkind HW HP (Bw c) 0 HW ltac:(intros w _; cbn; lia) wk_fresh0 (repeat wk_fresh (c_W c)) 0 0 0 (c_W c - 1)
+              (repeat (0, false) (c_W c)) snap_fresh fresh_workers_ok (fresh_entries_ok snap_fresh eq_refl)) as (gw & rd & R & H & HR & HA & HS & Eny & HWw).
+  rewrite (refsuf_start c Hkind HW) in HR. exists gw, rd, R. auto 8.
+Qed.
+
 (* C03 (iterable datasets, every snapshot interval): for EVERY arrival schedule the epoch is the reference stream *)
 Theorem iter_epoch_exact : forall sched,
   outcomes c (S (length (reference c))) (sdl_fresh c) sched = map OBatch (reference c) ++ [OStop].
 Proof.
-  intros sched.
-  destruct (start_iter c Hkind HW HP (Bw c) 0 HW ltac:(intros w _; cbn; lia) (repeat wk_fresh (c_W c)) 0 0 0 (c_W c - 1)
-              (repeat (0, false) (c_W c)) {| sn_step := 0; sn_last := c_W c - 1; sn_main := (0, 0); sn_workers := repeat (0, false) (c_W c) |}
-              fresh_workers_ok) as (gw & rd & R & H & HR & HA & HS & _).
-  rewrite (refsuf_start c Hkind HW) in HR.
-  exact (outcomes_iter c Hkind HW HP (Bw c) 0 HW (reference c) gw rd (a0 0) R (sdl_fresh c) sched H HR HA HS).
+  intros sched. destruct fresh_start as (gw & rd & R & H & HR & HA & HS & _ & HWw).
+  exact (outcomes_iter c Hkind HW HP (Bw c) 0 HW wk_fresh0 (reference c) gw rd (a0 0) R (sdl_fresh c) sched H HR HA HS HWw).
+Qed.
+
+(* C05 / C01 (iterable datasets, every snapshot interval, EVERY arrival schedule, every k): in the state reached after k batches,
+   every worker-state entry of the snapshot that state_dict() hands out — and of the running _worker_snapshots — is the state
+   that worker reported right after the answer to one of its tasks that the main process has ALREADY PASSED (a batch handed out
+   to the user, or an end-of-shard notice consumed in task order), or the worker's initial state: never the state after a
+   result that is still buffered or outstanding, however far ahead a fast worker has run (InvW); InvC gives the ghost data
+   their meaning (gw t / rd t: worker and per-worker ordinal of task t; tasks below m_rcvd are the passed ones). *)
+Theorem iter_entries_never_ahead : forall k sched, k <= length (reference c) ->
+  exists gw rd a R, InvC c (Bw c) 0 gw rd a R (fst (replay c k (sdl_fresh c) sched)) /\
+                    InvW c 0 wk_fresh0 gw rd a (fst (replay c k (sdl_fresh c) sched)).
+Proof.
+  intros k sched Hk. destruct fresh_start as (gw & rd & R & H & HR & HA & HS & _ & HWw).
+  destruct (replay_iter c Hkind HW HP (Bw c) 0 HW wk_fresh0 k gw rd (a0 0) R (sdl_fresh c) (reference c) sched Hk H HR HA HS HWw)
+    as (s' & sched' & gw' & rd' & a' & R' & E & H' & _ & _ & _ & _ & HW').
+  rewrite E. exists gw', rd', a', R'. split; assumption.
 Qed.
 
 End FreshIter.
